@@ -113,6 +113,8 @@ pub mod h_attach;
 pub mod h_recv;
 #[cfg(any(all(kani, feature = "k_q"), all(not(kani), feature = "k_native")))]
 pub mod h_err;
+#[cfg(any(all(kani, feature = "k_q"), all(not(kani), feature = "k_native")))]
+pub mod h_hist;
 #[cfg(any(all(kani, feature = "k_q", feature = "bigfd"), all(not(kani), feature = "k_native")))]
 pub mod h_many;
 #[cfg(any(all(kani, feature = "k_rec"), all(not(kani), feature = "k_native")))]
@@ -134,6 +136,7 @@ pub fn lookup(name: &str) -> Option<fn()> {
         .or_else(|| h_sendmany::lookup(name))
         .or_else(|| h_ser::lookup(name))
         .or_else(|| h_err::lookup(name))
+        .or_else(|| h_hist::lookup(name))
 }
 
 /// compiled once per feature set to warm the dependency cache (vlib/kanirun.py: seed_target)
